@@ -397,11 +397,15 @@ static void st_check(const Json& c, Out& o) {
     ld Wmax = 0;
     for (ld v : W) Wmax = std::max(Wmax, v);
     const ld thr = 1e-9L * Wmax;
-    long skipped = 0, compared = 0;
+    long skipped = 0, skipped_tiny = 0, compared = 0;
     double worst = 0;
     for (int i = 0; i < ylen; ++i) {
         const ld w = W[size_t(i)];
-        if (!(w > thr) || !(w > 0)) { ++skipped; continue; }   // zero (or flushed-to-one) weight: nothing is claimed but finiteness
+        if (!(w > thr) || !(w > 0)) {   // zero (or flushed-to-one) weight: nothing is claimed but finiteness
+            ++skipped;
+            if (w != 0) ++skipped_tiny;
+            continue;
+        }
         const ld tol = (64 * ld(nfft) * EPS * wmax * E[size_t(i)] + (2 * cnt[size_t(i)] + 8) * EPS * std::fabs(ld(x[i])) * Wabs[size_t(i)]) / w;
         const ld e = std::fabs(ld(y[i]) - ld(x[i]));
         ++compared;
@@ -430,6 +434,7 @@ static void st_check(const Json& c, Out& o) {
     o.label(nseg == 1 ? "frames:1" : nseg * hop >= nwin + hop ? "frames:steady-state-reached" : "frames:partial-overlap-only");
     if (ends_zero) o.label("window-ends-in-zero");
     if (skipped) o.label("zero-weight-samples:value-check-skipped");
+    if (skipped_tiny) o.label("zero-weight-samples:of-which-weight-tiny-but-not-exactly-0 (<1e-9 max)");
     if (dflt) o.label("api:default-window-overloads");
     o.label(std::string("input:") + sig_name(cls));
 }
